@@ -2,8 +2,8 @@
    Statements only; every proof is one [exact].
    LEVEL (DESIGN.md "proof, partial"):
      PROVED   of the specification model MapSpec, for every body family, key universe and history:
-              map_keyset_mirrors, valid_elements_have_output, map_key_isolated, other_keys_invisible,
-              readd_is_fresh.
+              map_keyset_mirrors, valid_elements_have_output, map_key_isolated, map_key_runs_alone,
+              other_keys_invisible, readd_is_fresh.
      PROVED   of the mirror model MapSched (map_node.cpp's child schedule queue), for every sequence of
               ticks, child schedules, erases, key removals / additions / slot reuse and child behaviours:
               map_no_child_wake_lost, owner_cannot_skip_child_time, due_child_is_in_evaluation_set.
@@ -46,6 +46,15 @@ Theorem map_key_isolated : forall (S : Type) (B1 B2 : Z -> body S) j h1 h2 r1 r2
   key_trace j (r_log (run B1 r1 h1)) = key_trace j (r_log (run B2 r2 h2)).
 Proof. exact @MapFacts.isolated_gen. Qed.
 Print Assumptions map_key_isolated.
+
+(* ... which is the property's "as if run alone": key j's trace in the map equals its trace in a map whose key
+   universe is {j} alone and whose history contains only the operations on j (same times, same broadcast). *)
+Theorem map_key_runs_alone : forall (S : Type) (B : Z -> body S) ndict keys h j,
+  In j keys ->
+  key_trace j (r_log (run B (start_state ndict keys) h)) =
+  key_trace j (r_log (run B (start_state ndict [j]) (map (restrict_to j) h))).
+Proof. exact @MapFacts.runs_alone. Qed.
+Print Assumptions map_key_runs_alone.
 
 (* A cycle that does not concern key j - no operation on j, no broadcast argument modified, no wake-up of j due - leaves
    j untouched and silent: the cycles other keys cause (their ticks, their timers) are invisible to j. *)
